@@ -598,6 +598,11 @@ class MetaClass(object):
             
         # set all named arguments
         for name, value in kwargs.items():
+            for attr_name in self.attribute_names:
+                if attr_name.upper() == name.upper():
+                    name = attr_name
+                    break
+            
             if name not in self.referential_attributes:
                 setattr(inst, name, value)
             else:
